@@ -7,7 +7,8 @@
   `HeaderValue::to_str` is external in the same way (`HeaderVal.opaque` = `to_str` failed).
 
   Transcribed exactly (jsonrpsee-specific part):
-    * `Authority::inner_from_str` (authority.rs:70-93): `maybe_port = authority[host.len()..]`,
+    * `Authority::inner_from_str` (authority.rs:70-95): `host_start = rfind('@') + 1 or 0`,
+      `maybe_port = authority[host_start + host.len()..]`,
       `split_once(':')`, `"*"` ⇒ `Port::Any`, `str::parse::<u16>` or `InvalidPort`, folding of the
       scheme's default port (table GENERATED from `fn default_port`, Gen/DefaultPorts.lean).
     * `http_helpers::read_header_value` (core/src/http_helpers.rs:203-211): exactly one value.
@@ -82,9 +83,18 @@ def portOfText (scheme : Option Text) (maybePort : Text) : Option Port :=
       | none => none
       | some n => if Gen.defaultPort scheme == some n then some .default else some (.fixed n)
 
-/-- authority.rs:73 `&authority.as_str()[host.len()..]` — note: sliced from the FRONT of the
-authority text, which starts with the userinfo when there is one. -/
-def maybePortText (u : UriParts) : Text := u.authority.drop u.host.length
+/-- scan for `str::rfind('@').map_or(0, |i| i + 1)`: `i` = index of the next character,
+`best` = result so far -/
+def hostStartAux : Text → Nat → Nat → Nat
+  | [], _, best => best
+  | c :: r, i, best => hostStartAux r (i + 1) (if c == 64 then i + 1 else best)
+
+/-- `authority.as_str().rfind('@').map_or(0, |i| i + 1)`: where the host starts, i.e. just past
+the userinfo (`user:password@`) if there is one -/
+def hostStart (authority : Text) : Nat := hostStartAux authority 0 0
+
+/-- `&authority.as_str()[host_start + host.len()..]`: the text that follows the host -/
+def maybePortText (u : UriParts) : Text := u.authority.drop (hostStart u.authority + u.host.length)
 
 /-- `Authority::inner_from_str` after the URI has been parsed -/
 def authorityOfParts (u : UriParts) : Option Authority :=
